@@ -34,6 +34,7 @@ def cart_contents(path):
 
 class World:
     def __init__(self, ctx, rng):
+        self.problems = []
         self.ctx, self.rng = ctx, rng
         self.n = 0
         from pico8.game import file as gfile
@@ -57,8 +58,16 @@ class World:
         if with_label and ext == '.p8.png':
             # an existing .p8.png OUT carries its own picture (not the bundled blank one): written over a random 160x205 image
             from props import C04
-            lab_path, _ = C04.make_label(self.ctx, rng, 'label_src%d.png' % self.n)
+            lab_path, lab_rows = C04.make_label(self.ctx, rng, 'label_src%d.png' % self.n)
             shutil.copy(lab_path, path)
+            self.gfile.to_file(g, path)
+            # the cart just written over that picture is an "existing OUT" of later builds: it must show the picture (whatever
+            # ancillary chunks the picture file carried), or "OUT's own label" would silently mean the blank one from here on
+            got_rows = refpng.decode(open(path, 'rb').read())[3]
+            if any((x >> 2) != (y >> 2) for r1, r2 in zip(got_rows, lab_rows) for x, y in zip(r1, r2)):
+                self.problems.append(('C13:existing-out-label', 'a cart written over an existing .p8.png picture does not show that picture '
+                                      '(the label of an existing OUT is not kept)', {'label_file': os.path.basename(lab_path)}))
+            return path
         self.gfile.to_file(g, path)
         return path
 
@@ -349,6 +358,8 @@ def run(ctx, res):
     if rc == 0 or os.path.exists(os.path.join(ctx.tmp, 'out.txt')):
         res.fail('C13:bad-out-name', 'build with an output name that is neither .p8 nor .p8.png did not fail cleanly', {})
     res.sample({'assignment': assigns[0], 'model_line': lines[0], 'outcome': expect[0]})
+    for k_, what_, inp_ in w.problems[:3]:
+        res.fail(k_, what_, inp_)
     if ctx.model.available:
         for c, e, g in zip(cases, expect, ctx.model.run(lines)):
             gg = g if g.startswith('ok') else 'err'
